@@ -137,35 +137,54 @@ def analyse_one(args):
         else:
             notes.append(f"long input: {rl[0]} {str(rl[1])[:40]}")
         out.append((vname, over, "ok", notes, probs))
-    # short input (fewer candles than most default periods): still one entry per candle, and the sequential call must not be the
-    # only one that raises
-    ns = 10
-    rs = IR.run_indicator(repo, rel, fn, ns, True)
-    rn = IR.run_indicator(repo, rel, fn, ns, False)
-    probs = []
-    if rs[0] == "ok":
-        for f, v in IR.fields_of(rs[1]):
-            if isinstance(v, NA) and v.ndim == 1:
-                if len(v.data) != ns:
-                    probs.append((f, "short-input-length", f"sequential series '{f}' has {len(v.data)} entries for {ns} candles (input shorter than the default period)"))
-            elif not isinstance(v, (NA, list)):
-                probs.append((f, "short-input-not-a-series", f"sequential result of field '{f}' on {ns} candles is not a series ({type(v).__name__})"))
+    # short inputs (fewer candles than / about as many as the default periods): still one entry per candle, the sequential call must
+    # not be the only one that raises - swept over every length from 1 to a little beyond the sum of the default periods, because the
+    # branches for "not enough candles" sit at lengths like period, period + 1, period + period_stoch - 1
+    from props.c13 import int_params
+    total = sum(v for k, v in int_params(fn) if 0 < v < 60)
+    sweep = sorted(set([1, 2, 3, 10] + list(range(1, min(max(total + 3, 12), 48 if tier == "quick" else 90)))))
+    und = None
+    for ns in sweep:
+        rs = IR.run_indicator(repo, rel, fn, ns, True)
+        rn = IR.run_indicator(repo, rel, fn, ns, False)
+        probs = []
         notes_s = []
-        if rn[0] == "raises":
-            if "IndexError" in str(rn[1]):
-                # an out-of-bounds access inside a numba kernel is undefined behaviour in the compiled code (no bounds check): not decidable here
-                notes_s.append(f"short input: sequential=False indexes out of bounds ({rn[1]}) - undefined behaviour under numba, undecided")
+        if rs[0] == "ok":
+            for f, v in IR.fields_of(rs[1]):
+                if isinstance(v, NA) and v.ndim == 1:
+                    if len(v.data) != ns:
+                        probs.append((f, "short-input-length", f"sequential series '{f}' has {len(v.data)} entries for {ns} candles (input shorter than the default period)"))
+                elif not isinstance(v, (NA, list)):
+                    probs.append((f, "short-input-not-a-series", f"sequential result of field '{f}' on {ns} candle(s) is not a series ({type(v).__name__})"))
+            if rn[0] == "raises":
+                if "IndexError" in str(rn[1]) and "numba kernel" in str(rn[1]):
+                    # an out-of-bounds access inside a numba kernel is undefined behaviour in the compiled code (no bounds check): not decidable here
+                    notes_s.append(f"short input ({ns} candles): sequential=False indexes out of bounds ({rn[1]}) - undefined behaviour under numba, undecided")
+                else:
+                    probs.append(("*", "short-input-single-raises", f"sequential=False raises {rn[1]} on {ns} candles while sequential=True returns a series"))
+        elif rs[0] == "raises" and rn[0] == "ok":
+            if "IndexError" in str(rs[1]) and "numba kernel" in str(rs[1]):
+                notes_s.append(f"short input ({ns} candles): sequential=True indexes out of bounds ({rs[1]}) - undefined behaviour under numba, undecided")
             else:
-                probs.append(("*", "short-input-single-raises", f"sequential=False raises {rn[1]} on {ns} candles while sequential=True returns a series"))
-        out.append(("short-input", {}, "ok", notes_s, probs))
-    elif rs[0] == "raises" and rn[0] == "ok":
-        if "IndexError" in str(rs[1]):
-            out.append(("short-input", {}, "ok", [f"short input: sequential=True indexes out of bounds ({rs[1]}) - undefined behaviour under numba, undecided"], []))
-        else:
-            out.append(("short-input", {}, "ok", [], [("*", "short-input-sequential-raises", f"sequential=True raises {rs[1]} on {ns} candles while sequential=False returns a value")]))
+                probs.append(("*", "short-input-sequential-raises", f"sequential=True raises {rs[1]} on {ns} candles while sequential=False returns a value"))
+        elif rs[0] == "undecided" or rn[0] == "undecided":
+            und = und or f"{ns} candles: sequential: {rs[0]} {str(rs[1])[:50]}; single: {rn[0]} {str(rn[1])[:40]}"
+            continue
+        if probs or notes_s:
+            out.append((f"short-input n={ns}", {}, "ok", notes_s, probs))
+            if probs:
+                break                 # one length per indicator is enough for the report
     else:
-        out.append(("short-input", {}, "undecided", f"sequential: {rs[0]} {str(rs[1])[:50]}", []))
+        out.append(("short-input", {}, "ok" if und is None else "undecided", [] if und is None else und, []))
     return fname, rel, out
+
+
+def uses_numba(repo, rel) -> bool:
+    try:
+        tree = repo.module(rel).tree
+    except Exception:
+        return True
+    return any(isinstance(n, ast.FunctionDef) and any("njit" in ast.dump(d) or "jit" in ast.dump(d) for d in n.decorator_list) for n in ast.walk(tree))
 
 
 def run(repo: Repo, rep, tier: str):
